@@ -147,7 +147,7 @@ class _MolAtom:
         self.name, self.charge, self.radius = name, charge, radius
 
 
-def h_transfer(eng, ff, collisions=True):
+def h_transfer(eng, ff, collisions=True, runs=1):
     """complex = amino residue + water + the ligand + another hetero group;
     name collisions are symbolic (collisions=False: distinct names throughout - C01 reuses the harness that way)"""
     water_o = "O"
@@ -176,14 +176,25 @@ def h_transfer(eng, ff, collisions=True):
         captured["result"] = r
         return r
 
+    if runs > 1:
+        # an earlier --ligand run in the same process (programmatic use: main_driver called in a loop); nothing of it may
+        # reach this run's output
+        w0 = flow.World(eng, "r0", False, {}, [])
+        w0.residue_specs, w0.ligand_atoms = w.residue_specs, w.ligand_atoms
+        flow.run_driver(w0, dict(opts))
+    n0 = len(w0.log) if runs > 1 else 0
     with patched((main, "non_trivial", spy)):
         exc = flow.run_driver(w, opts)
+    if runs > 1:
+        later = [x[0] for x in w0.log[n0:]]
+        eng.check(not later, "earlier-run-objects-untouched", note=f"objects of the earlier run in this process were used again by this run: {later[:6]} ({len(later)} calls; e.g. its ligand atoms written into this run's output)")
     eng.note(f"ligand atoms {lig_names}, other group atom {other_name}, raised={type(exc).__name__ if exc else None}")
     if exc is not None:
         eng.check(True, "loud-failure-tolerated", note=str(exc)[:80])
         return
     bm = captured["bm"]
     printed = [x[1][0] for x in w.log if x[0] == "atom.get_pqr_string"]
+    eng.check(len(printed) == len([a for a in bm.atoms if a.has_ff or any(a.residue is lg for lg in bm.residues if lg.name == "LIG")]), "as-many-lines-as-parameterised-atoms", note=f"{len(printed)} atom lines written, the complex of this run has {len(bm.atoms)} atoms (run {runs} of {runs} in this process)")
     by_id = {a._desc[1]: a for a in bm.atoms}
     ligs = [r for r in bm.residues if r.name == "LIG"]
     for a in bm.atoms:
@@ -323,8 +334,9 @@ def h_ligand_records(eng):
 
     lines = [ln for ln in fixtures.peptide_lines(["ALA", "GLY"], ter=False) if not ln.startswith("END")]
     alts = [" ", "A", "B", "C"]
-    names = ["C1", "O1", "O2"]
-    chosen = [alts[eng.choice(f"altloc_{n}", len(alts))] for n in names]
+    names = ["C1", "O1", "O2", "H11"]
+    chosen = [alts[eng.choice(f"altloc_{n}", len(alts))] for n in names[:3]] + [" "]
+    strip = eng.flag("titration_strips_hydrogens")  # the PROPKA branch calls Biomolecule.remove_hydrogens before the ligand parameters are transferred
     numbering = eng.choice("two_copies_numbered", 3)  # 0: one copy; 1: 40 and 41; 2: 40A and 40B (insertion codes only)
     copies = [(40, " ")] if numbering == 0 else [(40, " "), (41, " ")] if numbering == 1 else [(40, "A"), (40, "B")]
     layout = eng.choice("file_layout", 3)  # 0: ... TER END; 1: MODEL 1 ... TER ENDMDL (no END); 2: no closing record at all
@@ -340,6 +352,8 @@ def h_ligand_records(eng):
     except (IndexError, KeyError, ValueError) as e:
         eng.check(False, "ligand-complex-is-read", note=f"layout {layout}, numbering {numbering}: {type(e).__name__}: {str(e)[:80]}")
         return
+    if strip:
+        bm.remove_hydrogens()
     lig = [r for r in bm.residues if r.name == "LIG"]
     got = sorted((r.res_seq, (r.ins_code or " "), a.name) for r in lig for a in r.atoms)
     want = sorted((num, ic, n) for num, ic in copies for n in names)
@@ -368,6 +382,7 @@ def obligations(tier):
     obs.append(Obligation("radii-table", table_radii, {}, kind="table", group="radii"))
     for ff in (0, 1):
         obs.append(Obligation(f"transfer-ff{ff}", h_transfer, dict(ff=ff), group="transfer", time_cap=1200))
+    obs.append(Obligation("transfer-ff0-second-run-in-process", h_transfer, dict(ff=0, collisions=False, runs=2), group="transfer", time_cap=1200))
     return obs
 
 
